@@ -428,6 +428,22 @@ theorem C20_space_refuses (tmapIds smapIds : List Int) (arity : Nat) (sid : Int)
     · rintro ⟨sc, h⟩; cases h
     · rintro ⟨h, _⟩; exact absurd h hk
 
+/-- the guard the driver evaluates for spaces too large to enumerate is exactly `fullSpace`'s own -/
+theorem C20_space_guard (tmapIds smapIds : List Int) (arity : Nat) (sid : Int) :
+    fullSpaceGuard arity tmapIds.length smapIds sid = (fullSpace arity tmapIds smapIds sid).map (fun _ => ()) := by
+  unfold fullSpaceGuard fullSpace
+  cases combinationCount tmapIds.length arity with
+  | error e => rfl
+  | ok cnt =>
+    simp only [bind, Except.bind]
+    split
+    · rfl
+    · split <;> rfl
+
+/-- the budget boundary for pairs: 4472 mapping rows are within 10^7 combinations, 4473 are not -/
+example : Nat.choose 4472 2 ≤ 10000000 ∧ ¬ Nat.choose 4473 2 ≤ 10000000 := by
+  rw [Nat.choose_two_right, Nat.choose_two_right]; decide
+
 end space
 
 example : (fullSpace 2 [-1, 0, 1] [0, 1] 1).toOption.map (fun sc => (sc.arity, sc.sids, sc.tids))
